@@ -30,13 +30,14 @@ SPEC = dict(
             "no-reservation-never-reserved", "no-reservation-after-disconnect", "no-reservation-after-expiry-and-collection",
             "connect-ok-on-expired-uncollected-or-uncertain", "disconnect-of-reservation-holder",
             "data-limit-hit-forward", "data-limit-hit-backward", "data-exactly-at-limit-forward", "data-exactly-at-limit-backward",
-            "duration-limit-hit", "cold-first-contact-in-request", "batch-disconnect-races-own-request", "x-direct-and-relayed", "x-reservation-dropped-limited-connection-remains",
+            "duration-limit-hit", "cold-first-contact-in-request", "batch-disconnect-races-own-request", "probe-connect-after-disconnect-race", "x-direct-and-relayed", "x-reservation-dropped-limited-connection-remains",
             "x-reservation-kept-unlimited-relayed-connection", "real-connect-ok", "real-echo-ok", "connection-failed"],
     real=["ALL of the following run as tasks of the seeded scheduler (instrumented)", "circuitv2 relay (relay.go, constraints.go)",
           "circuitv2 client (Reserve, transport dial / listen / stop handler)", "basic host, identify", "swarm", "tcp transport dial path",
           "upgrader + listener", "noise / insecure", "multistream-select", "yamux", "resource manager (real, infinite limits) behind "
           "refusing wrappers", "BasicConnMgr on the relay", "pstoremem", "eventbus"],
     stubs=["wire: simnet TCP model", "ACL filter scripted by the harness", "byzantine sources / destinations speaking raw hop / stop messages",
-           "refusing resource-manager wrappers (delegate to the real one)"],
+           "refusing resource-manager wrappers (delegate to the real one)",
+           "connection-manager wrapper that can hold one TagPeer call of the relay for 1 ms (delegates to the real BasicConnMgr)"],
     assume=["virtual clock of testing/synctest", "reservation collection happens at least every 2 minutes"],
 )
